@@ -54,6 +54,19 @@ theorem unique_spec (xs : List Int) : specUnique xs (categories xs) (codes xs) =
 
 example : categories [3, 1, 3, 2] = [1, 2, 3] ∧ codes [3, 1, 3, 2] = [2, 0, 2, 1] := by decide
 
+/-- A categorical array *derived* from another one (slice, reversal, permutation, roll, sort, view,
+copy, transpose — numpy hands the parent's categories down through `__array_finalize__` and the codes
+are looked up again with `index_lookup`) still satisfies `categories[codes] == values`: for every
+parent `pv` and every derived value list `dv`, every code that is given points at its value and a
+code is withheld only for a value absent from the categories; when `dv ⊆ pv` (every derivation numpy
+offers) no code is withheld. -/
+theorem derived_codes_spec (pv dv : List Int) :
+    specLookup (categories pv) dv (lookupCodes (categories pv) dv) = true ∧
+    ((∀ x ∈ dv, x ∈ pv) → ∀ c ∈ lookupCodes (categories pv) dv, c.isSome = true) :=
+  ⟨Lemmas.specLookup_model _ dv, Lemmas.lookupCodes_some_of_subset pv dv⟩
+
+example : lookupCodes (categories [3, 1, 3, 2]) [2, 3, 1] = [some 1, some 2, some 0] := by decide
+
 /-- The length predicted for a positive-step slice axis (`view_shape`) is the number of elements
 the slice really selects. -/
 theorem viewShape_slice_length (b e : Int) (st : Nat) (hst : 0 < st) :
